@@ -110,6 +110,12 @@ MClock(c, tab, t) == IF PosIn(tab, t) # 0 THEN PosIn(tab, t) - 1 ELSE PosIn(tab,
 \*   bdays(t, u, a)  drange(t, u, '1b') (u < t: the empty list unless both adjust to one day)  clock_diff = clock(u) - clock(t)
 \*   add_inv = add(add(t, n), -n)   bdays_add = bdays(t, add(t, n))   add_twice = add(add(t, n), n), n = +-1
 \*   add_split = add(add(t, n - s), s), s = sign(n)  (the indexed path against the single step on top of it)
+\* REALISATION of the day(s) of a query (field r, optional): the statement speaks of days; the object that carries a day
+\* into the call is the caller's business.  Law: every answer is a function of the DAY of t (and u) - Answer never reads
+\* q.r - and does not depend on what the calendar was asked before.
+\*   "dt" midnight datetime   "tod" datetime with a time of day   "ts" pandas Timestamp at midnight
+\*   "tstod" pandas Timestamp one microsecond before the next day   "date" datetime.date
+Reals == {"dt", "tod", "ts", "tstod", "date"}
 Adj(c, q) == IF q.a = "" THEN c.adj ELSE q.a
 B(b) == IF b THEN 1 ELSE 0
 Sgn(n) == IF n > 0 THEN 1 ELSE IF n < 0 THEN -1 ELSE 0
@@ -155,11 +161,31 @@ InDomain(c, q) ==
       [] q.op \in {"bdays", "clock_diff"} -> AllIn(c, {q.t, q.u, Adjust(c, q.t, a), Adjust(c, q.u, a)})
       [] q.op = "drange"  -> AllIn(c, {q.t, q.u, Adjust(c, q.t, c.adj), Adjust(c, q.u, c.adj)})
 
+\* BEYOND THE RANGE.  A question can be POSED when it is well formed and the day(s) it names lie in the calendar's range
+\* (the quantifier: "every day t in the calendar's range and every n in [-40, 40]").  When an adjusted day, an
+\* intermediate day or the result leaves [lo, hi] the calendar cannot look the day up:
+\* Named deviation RefusalBeyondRange: there the call may REFUSE (raise one of Refusals) - but an answer, if one is given,
+\* is still the day that day-by-day counting gives (holidays lie inside the range, outside it only weekends are skipped);
+\* never another date.
+WellQ(q) == /\ q.op = "add_twice" => q.n \in {-1, 1}
+            /\ q.op = "add_split" => q.n # 0
+TwoDays(q) == q.op \in {"bdays", "drange", "clock_diff"}
+Posed(c, q) == WellQ(q) /\ InRange(c, q.t) /\ (TwoDays(q) => InRange(c, q.u))
+Refusals == {"KeyError", "IndexError", "ValueError"}
+RefusalsFor(c, q) == IF InDomain(c, q) THEN {} ELSE Refusals
+\* the outcome out = [kind |-> "val", v |-> answer] | [kind |-> "exc", cls |-> class name] of a posed, pinned question is explained
+Explained(c, q, out) == \/ out.kind = "val" /\ out.v \in AcceptedAnswers(c, q)
+                        \/ out.kind = "exc" /\ out.cls \in RefusalsFor(c, q)
+
 \* does the code build the table for this query?  (mechanism; used by the registry machine)
 Populates(q) == \/ q.op \in {"bdays", "drange", "clock_diff", "bdays_add"}
                 \/ q.op \in {"add", "dt_bump", "add_inv"} /\ (q.n > 1 \/ q.n < -1)
                 \/ q.op = "add_split" /\ (q.n > 2 \/ q.n < -2)
 
+\* (a refusal of the inner call is the refusal of the composed question)
+MAddE(c, tab, t, n, a) == IF t < 0 THEN t ELSE MAdd(c, tab, t, n, a)
+MBdaysE(c, tab, t, u, a) == IF u < 0 THEN <<u>> ELSE MBdays(c, tab, t, u, a)
+MRefused(ans) == \E i \in 1..Len(ans) : ans[i] = KeyErr
 \* what the code of today computes for q, given the table object `tab` it holds or builds
 MechAnswer(c, tab, q) ==
     LET a == Adj(c, q) IN
@@ -172,10 +198,10 @@ MechAnswer(c, tab, q) ==
       [] q.op = "bdays"      -> MBdays(c, tab, q.t, q.u, a)
       [] q.op = "drange"     -> MDrange(c, tab, q.t, q.u)
       [] q.op = "clock_diff" -> <<MClock(c, tab, q.u) - MClock(c, tab, q.t)>>
-      [] q.op = "add_inv"    -> <<MAdd(c, tab, MAdd(c, tab, q.t, q.n, a), 0 - q.n, a)>>
-      [] q.op = "bdays_add"  -> MBdays(c, tab, q.t, MAdd(c, tab, q.t, q.n, a), a)
-      [] q.op = "add_twice"  -> <<MAdd(c, tab, MAdd(c, tab, q.t, q.n, a), q.n, a)>>
-      [] q.op = "add_split"  -> <<MAdd(c, tab, MAdd(c, tab, q.t, q.n - Sgn(q.n), a), Sgn(q.n), a)>>
+      [] q.op = "add_inv"    -> <<MAddE(c, tab, MAdd(c, tab, q.t, q.n, a), 0 - q.n, a)>>
+      [] q.op = "bdays_add"  -> MBdaysE(c, tab, q.t, MAdd(c, tab, q.t, q.n, a), a)
+      [] q.op = "add_twice"  -> <<MAddE(c, tab, MAdd(c, tab, q.t, q.n, a), q.n, a)>>
+      [] q.op = "add_split"  -> <<MAddE(c, tab, MAdd(c, tab, q.t, q.n - Sgn(q.n), a), Sgn(q.n), a)>>
 
 \* =============================================================================================
 \* Part 4 - the registry  calendar(key, ...)  as pure transition functions
@@ -233,6 +259,16 @@ DoRegisterObject(st, o) ==
 DoRegisterObjectWith(st, o, P) ==
     IF ~AnyGiven(P) THEN DoRegisterObject(st, o)
     ELSE LET old == st.heap[o] IN DoRegister(st, old.key, DerivedCfg(old.cfg, P))
+\* ---- the caller's own actions on a handle it holds (a loose object: made with Calendar(...), a copy) --------------
+\* obj.adj = a / obj['adj'] = a: the convention is an attribute of the calendar object; from now on the object IS the
+\* configuration with adj = a (law: every later answer "by the calendar's own convention" is by a - no answer given
+\* under the old convention may survive).  Nothing else of the object changes (mechanism: the table stays).
+DoSetAdj(st, o, a) == [st EXCEPT !.heap[o].cfg.adj = a]
+\* Calendar(obj) / obj.copy(): another calendar object with the configuration obj has NOW; from then on the two are
+\* independent (mechanism: a shallow copy - the copy holds the very table of the original, if that was built)
+DoCopy(st, o) == [st EXCEPT !.heap = Append(st.heap, [st.heap[o] EXCEPT !.status = "loose"])]
+\* obj(adj = a): a copy with the convention a; obj keeps its own
+DoCopyWith(st, o, a) == LET s2 == DoCopy(st, o) IN DoSetAdj(s2, Len(s2.heap), a)
 \* calendar(k) on a registered key: what the fetched calendar says about itself
 View(st, k) == LET c == st.heap[st.reg[k]].cfg IN [hol |-> SetToSortSeq(c.hol, <), wk |-> SetToSortSeq(c.wk, <), adj |-> c.adj]
 \* a query on object o (through calendar(k) or, for a loose object, through its handle)
